@@ -2,7 +2,7 @@
 
     [spec_track c fuse o w] is what [WorldSpec.spec_step] predicts for step [o] from the machine world [w]
     (abstracted by [abs_world]: backend kind + typed snapshot of every vector), when the step lies in the
-    fragment the history theorems cover (no armed panic fuse, [spec_step] defined, the environment
+    fragment the history theorems cover ([spec_step_f] defined - steps with an armed panic fuse included where the fused fragment covers them -, the environment
     assumption [admissibleb] holds) - and [None] otherwise.  [spec_track_sound]: whenever it answers, the
     machine's [run_step] shows exactly that outcome, panic kind, returned values, user-code events and
     lists.  The extracted function runs inside mlrun/driver.ml; the check compares its predictions with the
@@ -12,7 +12,7 @@
 From Coq Require Import String.
 From AV.Model Require Import Base Bytes Vec Ops Interp Trace.
 From AV.Spec Require Import VecSpec WorldSpec.
-From AV.Proofs Require Import MemLemmas Rep VecProofs WorldProofs.
+From AV.Proofs Require Import MemLemmas Rep VecProofs WorldProofs WorldFused.
 
 Definition abs_slot (c : cfg) (o : option vec) : option (option avec) :=
   match o with
@@ -37,19 +37,15 @@ Definition track_of (r : sres) : track :=
   {| t_out := s_out r; t_pk := s_pk r; t_ret := s_ret r; t_evs := s_evs r; t_st := s_st r |}.
 
 Definition spec_track (c : cfg) (fuse : option N) (o : op) (w : world) : option track :=
-  match fuse with
-  | Some _ => None
-  | None =>
-      match abs_world c w with
-      | None => None
-      | Some st =>
-          if admissibleb c w o
-          then match spec_step c st (unext (wuw w)) o with
-               | Some r => Some (track_of r)
-               | None => None
-               end
-          else None
-      end
+  match abs_world c w with
+  | None => None
+  | Some st =>
+      if admissibleb c w o
+      then match spec_step_f c st (unext (wuw w)) fuse o with
+           | Some r => Some (track_of r)
+           | None => None
+           end
+      else None
   end.
 
 Lemma abs_slots_rep c : forall l st,
@@ -82,30 +78,30 @@ Proof.
 Qed.
 
 (** whenever the tracked specification answers, the machine does exactly that *)
-Theorem spec_track_sound c w st o t :
-  cfg_wf c -> WRep c w st -> spec_track c None o w = Some t ->
-  exists r, obs_match c (run_step c None o w) r /\ t = track_of r.
+Theorem spec_track_sound c w st fuse o t :
+  cfg_wf c -> WRep c w st -> spec_track c fuse o w = Some t ->
+  exists r, obs_match c (run_step c fuse o w) r /\ t = track_of r.
 Proof.
   intros Hwf HW Ht. unfold spec_track in Ht.
   destruct (abs_world_wrep c w st HW) as (st0 & E & HW0). rewrite E in Ht.
   destruct (admissibleb c w o) eqn:Ea; [|discriminate].
-  destruct (spec_step c st0 (unext (wuw w)) o) as [r|] eqn:Er; [|discriminate].
+  destruct (spec_step_f c st0 (unext (wuw w)) fuse o) as [r|] eqn:Er; [|discriminate].
   injection Ht as <-. exists r. split; [|reflexivity].
-  apply (step_refines c w st0 o r Hwf HW0 Er). apply admissibleb_sound. exact Ea.
+  apply (step_refines_f c w st0 fuse o r Hwf HW0 Er). apply admissibleb_sound. exact Ea.
 Qed.
 
 (** ... in the observables of the trace: outcome, panic kind, returned values, user-code events, and per
     vector the typed snapshot and length *)
-Corollary spec_track_observables c w st o t :
-  cfg_wf c -> WRep c w st -> spec_track c None o w = Some t ->
-  let sr := run_step c None o w in
+Corollary spec_track_observables c w st fuse o t :
+  cfg_wf c -> WRep c w st -> spec_track c fuse o w = Some t ->
+  let sr := run_step c fuse o w in
   sr_out sr = t_out t /\ sr_pkind sr = t_pk t /\ sr_ret sr = t_ret t /\
   filter is_user_event (world_events (sr_world sr)) = t_evs t /\
   forall n a, get_a n (t_st t) = Some a ->
     exists v, get_vec n (sr_world sr) = Some v /\ snapshot c v = Some (a_xs a) /\
               vlen v = N.of_nat (length (a_xs a)) /\ vbk v = a_bk a.
 Proof.
-  intros Hwf HW Ht. destruct (spec_track_sound c w st o t Hwf HW Ht) as (r & Hm & ->).
+  intros Hwf HW Ht. destruct (spec_track_sound c w st fuse o t Hwf HW Ht) as (r & Hm & ->).
   cbv zeta. cbn [track_of t_out t_pk t_ret t_evs t_st].
   split; [apply (om_out _ _ _ Hm)|]. split; [apply (om_pk _ _ _ Hm)|]. split; [apply (om_ret _ _ _ Hm)|].
   split; [apply (om_evs _ _ _ Hm)|]. intros n a Hg. apply (wrep_snapshot c _ (s_st r) n a (om_rep _ _ _ Hm) Hg).
